@@ -975,4 +975,113 @@ theorem simF_call_fn {k : Nat} (hA : FClaimA (k + 1)) (hU : FClaimU (k + 1)) {h 
   | brk l rs1 => rw [h1] at hprep; exact hprep.elim
   | cont l rs1 => rw [h1] at hprep; exact hprep.elim
 
+theorem headD_map_tr (m : Nat → Nat) (vs : List Val) : (vs.map (trf m)).headD .nil = trf m (vs.headD .nil) := by
+  cases vs <;> rfl
+
+/-- a call whose callee symbol denotes a first-order builtin -/
+theorem simF_call_builtin {k : Nat} (hA : FClaimA (k + 1)) {h name : String} (hn : name ∈ foBuiltins) {args : List Expr}
+    (hargs : FaList args = true) {m : Nat → Nat} {s : St} {rs : Ref.St} {env : Nat} {pre post : List Instr} {i : Nat}
+    (hrel : RelF m s rs env) (hseg : Seg s pre [.callExpr (.sym h) args] post)
+    (hl : lexLookup s h = some (i, .builtin name)) :
+    SimF [.callExpr (.sym h) args] m s rs env (refCall k (.builtin name) args env rs) := by
+  rw [refCall_builtin]
+  have hprep := hA args hargs none (fun f hf => by cases hf) 0 m s rs env hrel
+  have hexec : ∀ F, (exec (F + 3) (.callExpr (.sym h) args)).run s
+      = guardedRun s.data.length
+          ((prepareArgs (F + 1) none 0 args >>= fun _ => callUser (F + 1) name args.length : M Unit).run s) :=
+    fun F => by rw [exec_callExpr_sym F h args s i _ hl, run_callResolved_builtin]
+  obtain ⟨b0, hch, hfc⟩ := hrel.ctx
+  have hcurlt := hfc.lt
+  cases h1 : Ref.evalArgs (k + 1) args 0 (fun _ => false) env rs with
+  | ok vs' rs1 =>
+    rw [h1] at hprep
+    obtain ⟨M, s1, m1, vs, hM, hd1, hp1, hvs, rel1, hm1, ext1, fr1, hclvs⟩ := hprep
+    simp only
+    have hlen : args.length = vs.length := by
+      rw [← ref_evalArgs_length _ _ _ _ _ _ _ h1, hvs, List.length_map]
+    have hcu := fun f => run_callUser_fo f name hn vs s.data s1 hd1
+    rw [ref_applyFn_fo k name hn vs' rs1]
+    have hheapb : rs1.heap = trHeap m1 id id (inBuiltin s1 s.data).heap := rel1.heap
+    have htrb : (inBuiltin s1 s.data).trace = rs1.trace := rel1.trace
+    -- the successful case, uniformly in the new heap and trace
+    have hok : ∀ (v : Val) (s3 : St) (rsF : Ref.St), foResult name vs (inBuiltin s1 s.data) = (.ok v, s3) →
+        s3.scopes = s1.scopes → s3.linear = s1.linear → s3.fns = s1.fns → s3.suspended = s1.suspended →
+        s3.loops = s1.loops →
+        rsF.frames = rs1.frames → rsF.clos = rs1.clos → rsF.heap = trHeap m1 id id s3.heap → s3.trace = rsF.trace →
+        HOk m1 s1 rs1 s3.heap → VOk m1 s1 rs1 v →
+        SimF [.callExpr (.sym h) args] m s rs env (.ok (trf m1 v) rsF) := by
+      intro v s3 rsF hres hsc hlin hfns hsus hlps hfr hcl hheap htr hhok hvok
+      let sF : St := { s3 with data := some v :: s.data, addr := s1.addr, curfunc := s1.curfunc, pc := s1.pc + 1 }
+      have hx : ∀ f, M + 3 ≤ f → (exec (f + 1) (.callExpr (.sym h) args)).run s = (.ok (), sF) := by
+        intro f hf
+        obtain ⟨G, rfl⟩ : ∃ G, f = G + 3 := ⟨f - 3, by omega⟩
+        rw [hexec (G + 1), run_bind, hM (G + 1 + 1) (by omega)]
+        simp only
+        rw [hlen, hcu G, hres]; rfl
+      have hrelF : RelF m1 sF rsF env := rel1.of_same hsc hlin hfns rfl hfr hcl hheap htr hhok
+      have hfnF : fnOf sF sF.curfunc = fnOf s s.curfunc := by
+        show s3.fns.getD s1.curfunc {} = _
+        rw [hfns, fr1.curfunc]; exact fr1.fns _ hcurlt
+      have hfrF : Frame s1 sF := ⟨hlin, rfl, rfl, hsus, by show s1.fns.length ≤ s3.fns.length; rw [hfns]; exact Nat.le_refl _,
+        fun id _ => by show s3.fns.getD id {} = _; rw [hfns]; rfl,
+        by show s1.loops.length ≤ s3.loops.length; rw [hlps]; exact Nat.le_refl _,
+        fun id _ => by show s3.loops.getD id {} = _; rw [hlps]⟩
+      have hrext : RExt rs1 rsF := ⟨fun i fr hf => ⟨fr, by rw [hfr]; exact hf, rfl⟩, fun i c hc => by rw [hcl]; exact hc⟩
+      refine ⟨sF, m1, v, ReachX.step hseg.head (M + 3) hx, ⟨hfnF, by show s1.pc + 1 = _; rw [hp1]; simp, rfl⟩, rfl, hrelF,
+        hm1, ext1.trans hrext,
+        fr1.trans ⟨hfrF, by show s1.scopes.length ≤ s3.scopes.length; rw [hsc]; exact Nat.le_refl _,
+          fun i _ => by unfold isFnScope scopeOf; show (s3.scopes.getD i {}).isFunction = _; rw [hsc]⟩,
+        VOk.ext hvok hfrF hrext (MExt.refl _ _)⟩
+    by_cases ht : name = "trace"
+    · simp only [ht, if_true]
+      rw [ht] at hok
+      have hfo : foResult "trace" vs (inBuiltin s1 s.data) = (.ok (vs.headD .nil),
+          { inBuiltin s1 s.data with trace := (inBuiltin s1 s.data).trace ++ [pr (inBuiltin s1 s.data).heap (vs.headD .nil)] }) := by
+        unfold foResult; rw [if_pos rfl]
+      have hpr : pr rs1.heap (vs'.headD .nil) = pr (inBuiltin s1 s.data).heap (vs.headD .nil) := by
+        rw [hheapb, hvs, headD_map_tr]; exact pr_tr m1 id id _ _
+      rw [hvs, headD_map_tr]
+      refine hok _ _ { rs1 with trace := rs1.trace ++ [pr rs1.heap (trf m1 (vs.headD .nil))] } hfo rfl rfl rfl rfl rfl rfl rfl
+        rel1.heap ?_ rel1.hok ?_
+      · show (inBuiltin s1 s.data).trace ++ [pr (inBuiltin s1 s.data).heap _] = _
+        rw [htrb, ← headD_map_tr, ← hvs, hpr]
+      · cases vs with
+        | nil => exact vOk_lit .nil (fun _ _ _ => rfl)
+        | cons v0 _ => exact hclvs v0 List.mem_cons_self
+    · simp only [ht, if_false]
+      have hpt := prim_tr m1 id id name vs s1.heap
+      rw [hvs, rel1.heap, hpt]
+      cases hp : prim name vs s1.heap with
+      | some r =>
+        obtain ⟨v, hp'⟩ := r
+        have hfo : foResult name vs (inBuiltin s1 s.data) = (.ok v, { inBuiltin s1 s.data with heap := hp' }) := by
+          unfold foResult; rw [if_neg ht]
+          show (match prim name vs s1.heap with | some (v, h) => _ | none => _) = _
+          rw [hp]
+        simp only [Option.map_some]
+        have hpc := prim_valIn name vs s1.heap v hp' hp hclvs rel1.hok
+        exact hok v _ { rs1 with heap := trHeap m1 id id hp' } hfo rfl rfl rfl rfl rfl rfl rfl rfl rel1.trace hpc.2 hpc.1
+      | none =>
+        have hfo : foResult name vs (inBuiltin s1 s.data) = (.error .err, inBuiltin s1 s.data) := by
+          unfold foResult; rw [if_neg ht]
+          show (match prim name vs s1.heap with | some (v, h) => _ | none => _) = _
+          rw [hp]
+        simp only [Option.map_none]
+        refine FailsX.step hseg.head (M + 3) (fun f hf => ?_)
+        obtain ⟨G, rfl⟩ : ∃ G, f = G + 3 := ⟨f - 3, by omega⟩
+        refine ⟨_, by rw [hexec (G + 1), run_bind, hM (G + 1 + 1) (by omega)]; simp only; rw [hlen, hcu G, hfo]; rfl, ?_⟩
+        show ((restore (capPopped s1 s.data)).run (inBuiltin s1 s.data)).2.trace = _
+        rw [restore_trace]; exact rel1.trace
+  | err rs1 =>
+    rw [h1] at hprep
+    obtain ⟨M, hM⟩ := hprep
+    simp only
+    refine FailsX.step hseg.head (M + 2) (fun f hf => ?_)
+    obtain ⟨F, rfl⟩ : ∃ F, f = F + 2 := ⟨f - 2, by omega⟩
+    obtain ⟨se, hse, htr⟩ := hM (F + 1) (by omega)
+    exact ⟨{ se with data := truncate se.data s.data.length }, by rw [hexec F, run_bind, hse]; rfl, htr⟩
+  | timeout => trivial
+  | brk l rs1 => rw [h1] at hprep; exact hprep.elim
+  | cont l rs1 => rw [h1] at hprep; exact hprep.elim
+
 end ZygoVerif.Sim
